@@ -108,12 +108,19 @@ def uncompilableShape (root : Node) : Option String :=
   | .basic _ => some "not-eligible"
 
 /-- `none`: the inspector emitted for this root type compiles; `some c`: it does not, for reason `c`.
-On top of the per-shape discipline one file-level rule: DeepEqual emits `bytes.Equal` for every `[]byte` node,
-pointer or not, but the `bytes` import is only registered by the compare snippet of a *plain* `[]byte`
-(writeCmp returns early for pointer nodes): a type whose only byte slices are `*[]byte` does not compile. -/
-def uncompilable (root : Node) : Option String :=
+`ptrBytesRule` (the original emitter, finding `uncompilable-ptr-bytes-alone`): on top of the per-shape
+discipline one file-level rule — DeepEqual emits `bytes.Equal` for every `[]byte` node, pointer or not, but
+the `bytes` import was only registered by the compare snippet of a *plain* `[]byte` (writeCmp returns early
+for pointer nodes): a type whose only byte slices are `*[]byte` did not compile. Repaired in /repo (`fix: the
+inspector of a type whose only byte slices are *[]byte did not compile`): the equality emitter registers the import. -/
+def uncompilableWith (ptrBytesRule : Bool) (root : Node) : Option String :=
   match uncompilableShape root with
   | some c => some c
-  | none => if anyBytes true root && !anyBytes false root then some "ptr-bytes-alone" else none
+  | none => if ptrBytesRule && anyBytes true root && !anyBytes false root then some "ptr-bytes-alone" else none
+
+/-- The emitter as it is. -/
+def uncompilable (root : Node) : Option String := uncompilableWith false root
+/-- The emitter at the pinned commit. -/
+def uncompilableOriginal (root : Node) : Option String := uncompilableWith true root
 
 end Inspector
